@@ -277,6 +277,10 @@ mod regexp;
 mod substring;
 mod unicode_tables;
 
+#[cfg(grex_verif)]
+#[doc(hidden)]
+pub mod verif;
+
 #[cfg(feature = "python")]
 mod python;
 
